@@ -34,6 +34,7 @@ SOFTWARE.
 
 #%% 
 import numpy as np
+from fractions import Fraction
 from .objects import Fxp, implements
 from . import utils
 from . import _n_word_max
@@ -60,6 +61,17 @@ def _raw_cast(x, y, n_bits, n_frac=0):
     if n_frac >= _n_word_max or n_bits >= _n_word_max - 1 or (mixed and n_bits >= 53):
         return _object_cast
     return lambda m: m
+
+def _align_factor(exp, exact=False):
+    """
+    Returns 2**exp, the factor used to align a raw value with the fractional size of a result.
+
+    A negative exponent gives a float, which is only exact while the aligned values fit in 53 bits; if `exact`
+    a Fraction is returned instead (the raw values are then handled as python objects and rounded exactly).
+    """
+    if exp < 0 and exact:
+        return Fraction(1, 2**(-exp))
+    return 2**exp
 
 def _get_sizing(vars, sizing, method, optimal_size=None):
         if not isinstance(vars, list):
@@ -333,8 +345,10 @@ def add(x, y, out=None, out_like=None, sizing='optimal', method='raw', **kwargs)
     """
     def _add_raw(x, y, n_frac):
         n_bits = max(x.n_word + max(n_frac - x.n_frac, 0), y.n_word + max(n_frac - y.n_frac, 0)) + 1
-        precision_cast = _raw_cast(x, y, n_bits, n_frac)
-        return precision_cast(x.val) * precision_cast(2**(n_frac - x.n_frac)) + precision_cast(y.val) * precision_cast(2**(n_frac - y.n_frac))
+        # a result with less fractional bits than the operands is aligned exactly when the exact sum exceeds 53 bits
+        exact = n_frac < max(x.n_frac, y.n_frac) and max(x.n_int, y.n_int) + max(x.n_frac, y.n_frac) + 2 > 53
+        precision_cast = _object_cast if exact else _raw_cast(x, y, n_bits, n_frac)
+        return precision_cast(x.val) * precision_cast(_align_factor(n_frac - x.n_frac, exact)) + precision_cast(y.val) * precision_cast(_align_factor(n_frac - y.n_frac, exact))
 
     if not isinstance(x, Fxp):
         x = Fxp(x)
@@ -355,8 +369,10 @@ def sub(x, y, out=None, out_like=None, sizing='optimal', method='raw', **kwargs)
     """
     def _sub_raw(x, y, n_frac):
         n_bits = max(x.n_word + max(n_frac - x.n_frac, 0), y.n_word + max(n_frac - y.n_frac, 0)) + 1
-        precision_cast = _raw_cast(x, y, n_bits, n_frac)
-        return precision_cast(x.val) * precision_cast(2**(n_frac - x.n_frac)) - precision_cast(y.val) * precision_cast(2**(n_frac - y.n_frac))
+        # a result with less fractional bits than the operands is aligned exactly when the exact difference exceeds 53 bits
+        exact = n_frac < max(x.n_frac, y.n_frac) and max(x.n_int, y.n_int) + max(x.n_frac, y.n_frac) + 2 > 53
+        precision_cast = _object_cast if exact else _raw_cast(x, y, n_bits, n_frac)
+        return precision_cast(x.val) * precision_cast(_align_factor(n_frac - x.n_frac, exact)) - precision_cast(y.val) * precision_cast(_align_factor(n_frac - y.n_frac, exact))
 
     if not isinstance(x, Fxp):
         x = Fxp(x)
@@ -377,8 +393,10 @@ def mul(x, y, out=None, out_like=None, sizing='optimal', method='raw', **kwargs)
     """
     def _mul_raw(x, y, n_frac):
         n_bits = x.n_word + y.n_word + max(n_frac - x.n_frac - y.n_frac, 0)
-        precision_cast = raw_cast = _raw_cast(x, y, n_bits, n_frac)
-        return raw_cast(x.val) * raw_cast(y.val) * precision_cast(2**(n_frac - x.n_frac - y.n_frac))
+        # a result with less fractional bits than the product is aligned exactly when the exact product exceeds 53 bits
+        exact = n_frac < x.n_frac + y.n_frac and x.n_word + y.n_word > 53
+        precision_cast = raw_cast = _object_cast if exact else _raw_cast(x, y, n_bits, n_frac)
+        return raw_cast(x.val) * raw_cast(y.val) * precision_cast(_align_factor(n_frac - x.n_frac - y.n_frac, exact))
 
     if not isinstance(x, Fxp):
         x = Fxp(x)
